@@ -167,7 +167,7 @@ def run_c16(rep, tier):
                               'functions as unknowns: one merged run covers every ordered pair; z3 proves identical root <=> equal tables (and OBDD.__eq__ agrees), and that no two live non-terminals share (var, low, high)')
     run_bdd(rep, tier, 'C16')
     run_step(rep, tier)
-    gc_stress(rep, 300 if tier == 'quick' else 3000)
+    gc_stress(rep, 300 if tier == 'quick' else 600)
 
 
 def run_c17(rep, tier):
@@ -267,7 +267,7 @@ def gc_stress(rep, steps):
     ns = {}
     exec(GC_SRC % (), ns)
     problems = []
-    seeds = ['%d/gc/%d' % (SEED, j) for j in range(25 if steps <= 300 else 300)]
+    seeds = ['%d/gc/%d' % (SEED, j) for j in range(25 if steps <= 300 else 120)]
     for sd in seeds:
         bad = ns['stress'](sd, steps)
         if bad:
